@@ -56,6 +56,30 @@ CHECKS = {
         "hand-written model tied by bounded differential execution.",
    technique="Lean 4 proof (history_refines via probing invariant + doubling loop invariant) + correspondence run",
    design="6/C13"),
+ "C02": dict(
+   text="Kernel-checked Lean theorems over a model of FilePiece::ReadLine with both backings: in read mode, for every byte string, "
+        "every schedule of read() return sizes, every initial buffer size, delimiter and strip_cr, the records returned until end "
+        "of input are exactly the specification's (refill, memmove and doubling lose/duplicate/reorder nothing; no divergence); in "
+        "mmap mode the same for every page size, page-multiple window and start offset; end of input is reported on every further "
+        "call. Tied to util::FilePiece by in-process differential runs with read(2) interposed (every short script for every small "
+        "input, records at k*8192+-1, CR/delimiter at buffer edges, regular files at boundary sizes/offsets, istream, gz/bz2/xz "
+        "multi-member) and through a real tool.",
+   note="Trusted: Lean kernel + standard axioms; hand-written model tied by bounded differential execution; mmap-failure fallback "
+        "and decompressor internals (C15) not modelled; page size 4096 in the tie.",
+   technique="Lean 4 proof (read_mode_records, mmap_mode_records, eof_stable_*) + correspondence run with interposed read()",
+   design="6/C02"),
+ "C03": dict(
+   category="proof",
+   text="Kernel-checked Lean theorems for the retry loops (WriteOrThrow delivers exactly the data under every pattern of short "
+        "writes and EINTR and never resends; ReadOrEOF/ReadOrThrow return exactly the requested prefix or report EOF) and, via C02, "
+        "that the records a tool sees are independent of read fragmentation. The loops are tied to util/file.cc by exhaustive "
+        "outcome scripts comparing results and the sequence of request sizes; the tool-level statement is decided by fault "
+        "enumeration: all executables under an LD_PRELOAD shim injecting random short counts/EINTR on every descriptor must "
+        "reproduce stdout, files and status of the fault-free run (runs without a fired fault are not counted).",
+   note="Trusted: Lean kernel + standard axioms; the tool-level part is sampling (seeded fault schedules), not proof; libstdc++'s "
+        "iostream retry loops are exercised, not modelled.",
+   technique="Lean 4 proof of the I/O loops + fault enumeration on the real binaries",
+   design="6/C03"),
  "C01": dict(
    text="Kernel-checked Lean theorems: the dedupe loop over the proved hash-table model (C13) writes exactly the first-occurrence "
         "lines of any input for any key function without a zero hash, in input order (hence sublist, no key twice, every key once, "
